@@ -430,7 +430,7 @@ def gen_names(rng, n, allow_hash, allow_sub, friendly=False, multi=False, high=F
             if P5.isdig(name[-1]):
                 name += b"x"
             name += b"#" + str(rng.choice([1, 2, 3, 4, 10, 16])).encode()
-            if alts and rng.random() < 0.3:                # a#2{x,y}: the alternatives do not start with a digit
+            if alts and rng.random() < 0.5:                # a#2{x,y}: the alternatives do not start with a digit
                 name += alt_group(rng)
         if multi and rng.random() < 0.4:                   # a name of several address components: a#2/b#3/ x/y/ a#2/k#2:i u/v/w
             for _ in range(rng.choice([1, 1, 1, 2])):
